@@ -146,8 +146,16 @@ struct Files {
     files: Vec<(PathBuf, String)>,
 }
 
-fn layout(dir: &Path, progs: &[ProgSpec], specials: &[Special], excluded: &BTreeMap<String, Failure>) -> Files {
+fn crate_names(slot: &str) -> (String, String) {
+    let s: String = slot.chars().map(|c| if c.is_ascii_alphanumeric() { c } else { '_' }).collect();
+    (format!("vhp_{s}"), format!("vhr_{s}"))
+}
+
+fn layout(slot: &str, dir: &Path, progs: &[ProgSpec], specials: &[Special], excluded: &BTreeMap<String, Failure>) -> Files {
     let repo = rel_repo(dir);
+    // cargo hashes workspace members by their path relative to the workspace root, so crates of
+    // different slots would collide in the shared target directory: give them distinct names
+    let (pc, rc) = crate_names(slot);
     let mut files = vec![];
     let ws = r#"[workspace]
 members = ["vh_progs", "vh_run"]
@@ -172,7 +180,7 @@ debug = false
         dir.join("vh_progs/Cargo.toml"),
         format!(
             r#"[package]
-name = "vh_progs"
+name = "{pc}"
 version = "0.0.0"
 edition = "2024"
 publish = false
@@ -214,17 +222,17 @@ stageleft_tool.workspace = true
             let body = format!(
                 "#![allow(warnings)]\nuse hydro_lang::prelude::*;\nuse hydro_lang::live_collections::stream::{{NoOrder, TotalOrder, ExactlyOnce, AtLeastOnce}};\nuse hydro_lang::location::Location;\n\n{src}\n"
             );
-            files.push((dir.join(format!("vh_progs/src/gen/{}.rs", p.name)), body));
+            files.push((dir.join(format!("vh_progs/src/gp/{}.rs", p.name)), body));
         }
     }
     if !gen_mods.is_empty() {
-        lib.push_str("pub mod gen {\n");
+        lib.push_str("pub mod gp {\n");
         for m in &gen_mods {
             lib.push_str(&format!("    pub mod {m};\n"));
         }
         lib.push_str("}\n");
         for m in &gen_mods {
-            lib.push_str(&format!("pub use gen::{m}::{m};\n"));
+            lib.push_str(&format!("pub use gp::{m}::{m};\n"));
         }
     }
     files.push((dir.join("vh_progs/src/lib.rs"), lib));
@@ -233,14 +241,14 @@ stageleft_tool.workspace = true
         dir.join("vh_run/Cargo.toml"),
         format!(
             r#"[package]
-name = "vh_run"
+name = "{rc}"
 version = "0.0.0"
 edition = "2024"
 publish = false
 
 [dependencies]
 hydro_lang = {{ path = "{repo}/hydro_lang", default-features = false, features = ["embedded_runtime"] }}
-vh_progs = {{ path = "../vh_progs", features = ["stageleft_macro_entrypoint"] }}
+{pc} = {{ path = "../vh_progs", features = ["stageleft_macro_entrypoint"] }}
 dfir_rs = {{ path = "{repo}/dfir_rs", default-features = false }}
 stageleft.workspace = true
 tokio = {{ version = "1.29.0", features = ["full"] }}
@@ -252,7 +260,7 @@ bincode = "1.3.1"
 
 [build-dependencies]
 hydro_lang = {{ path = "{repo}/hydro_lang", default-features = false, features = ["build"] }}
-vh_progs = {{ path = "../vh_progs" }}
+{pc} = {{ path = "../vh_progs" }}
 prettyplease = {{ version = "0.2.0", features = ["verbatim"] }}
 serde_json = "1"
 "#
@@ -299,14 +307,33 @@ fn main() {
             continue;
         }
         let n = &p.name;
-        files.push((dir.join(format!("vh_run/glue/{n}.rs")), glue_for(p)));
+        let glue = if p.no_run {
+            "pub fn run(run: &crate::support::Run) -> serde_json::Value { serde_json::json!({\"p\": run.p, \"id\": run.id, \"error\": \"compile-only program\"}) }\n".to_string()
+        } else {
+            glue_for(p)
+        };
+        files.push((dir.join(format!("vh_run/glue/{n}.rs")), glue));
+        let mut decl = String::new();
+        let mut args = String::from("&process");
+        let mut withs = format!(".with_process(&process, \"{n}\")");
+        for l in &p.locs {
+            if l == "p2" {
+                decl.push_str("        let process2 = flow.process::<()>();\n");
+                args.push_str(", &process2");
+                withs.push_str(&format!(".with_process(&process2, \"{n}_p2\")"));
+            } else if l == "c" {
+                decl.push_str("        let cluster = flow.cluster::<()>();\n");
+                args.push_str(", &cluster");
+                withs.push_str(&format!(".with_cluster(&cluster, \"{n}_c\")"));
+            }
+        }
         b.push_str(&format!(
             r#"    record(&mut status, &out_dir, "{n}", include_str!("glue/{n}.rs"), |phase| {{
         let mut flow = hydro_lang::compile::builder::FlowBuilder::new();
         let process = flow.process::<()>();
-        vh_progs::{n}(&process);
+{decl}        {pc}::{n}({args});
         phase.set("compile");
-        let code = flow.with_process(&process, "{n}").generate_embedded("vh_progs");
+        let code = flow{withs}.generate_embedded("{pc}");
         phase.set("unparse");
         prettyplease::unparse(&code)
     }});
@@ -322,10 +349,10 @@ fn main() {
             continue;
         }
         let n = &sp.name;
-        files.push((dir.join(format!("vh_run/glue/{n}.rs")), sp.glue.clone()));
+        files.push((dir.join(format!("vh_run/glue/{n}.rs")), sp.glue.replace("{PC}", &pc)));
         b.push_str(&format!(
             "    record(&mut status, &out_dir, \"{n}\", include_str!(\"glue/{n}.rs\"), |phase| {{\n{}\n    }});\n",
-            sp.build_snippet
+            sp.build_snippet.replace("{PC}", &pc)
         ));
         mains.push_str(&format!(
             "mod r_{n} {{\n    pub mod g {{ include!(concat!(env!(\"OUT_DIR\"), \"/{n}.rs\")); }}\n    include!(concat!(env!(\"OUT_DIR\"), \"/glue_{n}.rs\"));\n}}\n"
@@ -353,7 +380,7 @@ fn main() {
 fn sync_files(dir: &Path, f: &Files) {
     // remove stale generated sources / glue that are no longer part of the batch
     let keep: BTreeSet<PathBuf> = f.files.iter().map(|(p, _)| p.clone()).collect();
-    for sub in ["vh_progs/src/gen", "vh_run/glue"] {
+    for sub in ["vh_progs/src/gp", "vh_run/glue"] {
         if let Ok(rd) = std::fs::read_dir(dir.join(sub)) {
             for e in rd.flatten() {
                 if !keep.contains(&e.path()) {
@@ -416,7 +443,7 @@ fn attribute(msg: &Value, names: &BTreeSet<String>) -> Option<(String, Stage)> {
         let p = Path::new(f);
         let stem = p.file_stem().and_then(|s| s.to_str()).unwrap_or("");
         let parent = p.parent().and_then(|d| d.file_name()).and_then(|s| s.to_str()).unwrap_or("");
-        if parent == "gen" && names.contains(stem) && f.contains("vh_progs") {
+        if parent == "gp" && names.contains(stem) && f.contains("vh_progs") {
             return Some((stem.to_string(), Stage::Stage1));
         }
         if parent == "out" {
@@ -448,11 +475,11 @@ pub fn build(slot: &str, progs: &[ProgSpec], specials: &[Special]) -> BuildRepor
     let quiet = std::env::var("VH_VERBOSE").is_err();
     for round in 0..6 {
         rep.rounds = round + 1;
-        let files = layout(&dir, progs, specials, &excluded);
+        let files = layout(slot, &dir, progs, specials, &excluded);
         sync_files(&dir, &files);
         let mut cmd = Command::new("cargo");
         cmd.current_dir(&dir)
-            .args(["build", "--offline", "-p", "vh_run", "--message-format=json"])
+            .args(["build", "--offline", "-p", &crate_names(slot).1, "--message-format=json"])
             .stdout(Stdio::piped())
             .stderr(Stdio::piped());
         cargo_env(&mut cmd);
@@ -476,14 +503,14 @@ pub fn build(slot: &str, progs: &[ProgSpec], specials: &[Special]) -> BuildRepor
                     }
                 }
                 Some("build-script-executed") => {
-                    if v["package_id"].as_str().map(|p| p.contains("vh_run")).unwrap_or(false) {
+                    if v["package_id"].as_str().map(|p| p.contains("vh_run") || p.contains(crate_names(slot).1.as_str())).unwrap_or(false) {
                         if let Some(d) = v["out_dir"].as_str() {
                             out_dir = Some(PathBuf::from(d));
                         }
                     }
                 }
                 Some("compiler-artifact") => {
-                    if v["target"]["name"].as_str() == Some("vh_run")
+                    if v["target"]["name"].as_str() == Some(crate_names(slot).1.as_str())
                         && v["target"]["kind"].as_array().map(|k| k.iter().any(|x| x == "bin")).unwrap_or(false)
                     {
                         if let Some(e) = v["executable"].as_str() {
